@@ -566,3 +566,57 @@ def identity_tests_on_singletons(ctx: Context, rule: str, modules: tuple[str, ..
             rep.ob(rule, f"shared|{name.split('.')[-1]}|identity:{text[:50]}", False, f"{m.relpath}:{line}", f"`{text}` compares two ordinary values by identity: {why}")
     rep.ob(rule, "shared|*|identity-tests", True, "httpcore/", f"{total} identity tests in {len(modules)} modules, each against None / True / False / an UPPER_CASE sentinel")
     rep.floor(rule, "identity tests scanned", total, 10)
+
+
+def scheme_gate_within_origin_table(ctx: Context, rule: str, why: str) -> None:
+    """The pool's scheme gate admits only schemes for which `URL.origin` is defined.  `URL.origin` looks the raw scheme bytes up in a
+    dict literal (KeyError otherwise) and is evaluated INSIDE `_assign_requests_to_connections`, after expired connections were taken
+    off the pool list and before the closing list is returned - an exception there loses them.  So: the value the gate tests is the
+    raw scheme (no case folding / stripping - the table lookup does none), and every admitted literal is a key of the table."""
+    rep = ctx.rep
+    models = ast.parse(ctx.prog.module("httpcore._models").src)
+    keys: set[bytes] | None = None
+    for c in ast.walk(models):
+        if isinstance(c, ast.ClassDef) and c.name == "URL":
+            for f in c.body:
+                if isinstance(f, ast.FunctionDef) and f.name == "origin":
+                    for n in ast.walk(f):
+                        if isinstance(n, ast.Subscript) and isinstance(n.value, ast.Dict) and norm(n.slice) == "self.scheme":
+                            keys = {k.value for k in n.value.keys if isinstance(k, ast.Constant) and isinstance(k.value, bytes)}
+                    if keys is None:
+                        # a total lookup (.get with a default) cannot raise: nothing to demand of the gate
+                        gets = [n for n in ast.walk(f) if isinstance(n, ast.Call) and isinstance(n.func, ast.Attribute) and n.func.attr == "get" and len(n.args) == 2]
+                        if gets:
+                            rep.ob(rule, "shared|URL.origin|scheme-table", True, "httpcore/_models.py", "URL.origin looks the scheme up with a default: total")
+                            rep.floor(rule, "scheme gates compared with the URL.origin table", 2, 2)
+                            return
+    if keys is None:
+        raise AnalysisError(f"{rule}: anchor vanished: the scheme -> default port table of URL.origin")
+    gates = 0
+    for tree, cls_name, fn_name in (("async", "AsyncConnectionPool", "handle_async_request"), ("sync", "ConnectionPool", "handle_request")):
+        m = ctx.prog.module(f"httpcore._{tree}.connection_pool")
+        t = ast.parse(m.src)
+        fn = next((f for c in ast.walk(t) if isinstance(c, ast.ClassDef) and c.name == cls_name for f in c.body
+                   if isinstance(f, (ast.FunctionDef, ast.AsyncFunctionDef)) and f.name == fn_name), None)
+        if fn is None:
+            raise AnalysisError(f"{rule}: anchor vanished: {cls_name}.{fn_name}")
+        binds = {st.targets[0].id: st.value for st in ast.walk(fn) if isinstance(st, ast.Assign) and len(st.targets) == 1 and isinstance(st.targets[0], ast.Name)}
+        for n in ast.walk(fn):
+            if not (isinstance(n, ast.If) and isinstance(n.test, ast.Compare) and len(n.test.ops) == 1 and isinstance(n.test.ops[0], ast.NotIn)
+                    and isinstance(n.test.comparators[0], (ast.Tuple, ast.List, ast.Set))
+                    and any(isinstance(r, ast.Raise) and "UnsupportedProtocol" in ast.unparse(r) for r in ast.walk(n))):
+                continue
+            gates += 1
+            tested = n.test.left
+            src_expr = binds.get(tested.id, tested) if isinstance(tested, ast.Name) else tested
+            sn = norm(src_expr)
+            raw_ok = sn in ("request.url.scheme.decode()", "request.url.scheme.decode('ascii')", "request.url.scheme", "request.url.scheme.decode('utf-8')")
+            lits = [e.value for e in n.test.comparators[0].elts if isinstance(e, ast.Constant)]
+            admitted = {x.encode() if isinstance(x, str) else x for x in lits}
+            extra = sorted(admitted - keys)
+            ok = raw_ok and not extra and len(lits) == len(n.test.comparators[0].elts)
+            rep.ob(rule, f"{tree}|{cls_name}.{fn_name}|scheme-gate", ok, f"{m.relpath}:{n.lineno}",
+                   f"gate tests `{sn}` against {sorted(admitted)}; URL.origin is defined for {sorted(keys)}" if ok else
+                   (f"the scheme gate tests `{sn}`, not the raw scheme: a scheme that passes only after that conversion (e.g. b'HTTP') is not a key of the URL.origin table {sorted(keys)}"
+                    if not raw_ok else f"the scheme gate admits {extra}, for which URL.origin has no entry") + f" - KeyError inside the assignment pass: {why}")
+    rep.floor(rule, "scheme gates compared with the URL.origin table", gates, 2)
